@@ -13,7 +13,7 @@ Entry fields
 """
 import os, re, shutil, subprocess
 from concurrent.futures import ThreadPoolExecutor
-from rs2coq import Sym, Env, Unsupported, find_method, parse_body, fill, coq_T, T, B
+from rs2coq import Sym, Env, Unsupported, find_method, parse_body, fill, coq_T, T, B, as_nat
 
 REPO = os.environ.get("VERIF_REPO", "/repo")
 F = REPO + "/crates/filters/src/"
@@ -402,13 +402,214 @@ pipe_entry("unit_bitor", PP + "unit_pipe.rs", r"impl<T,\s*Rhs>\s+BitOr<Rhs>\s+fo
            "(a b : pipe Id S)", params={"rhs": pipe("b")}, fns=PIPE_NEW)
 
 
+# ---- C02 / C17 : the moving median ----------------------------------------------------------------------
+# The node array is an abstract `list (node T)`; every `buffer[i]` read is a hypothesis `getn b i = Some nd`, every write
+# `setn b i {| .. |} = Some b'` (the model's own accessors: an index out of range is a panic in both); every symbolic
+# test (cursor == head, the node's value being Some/None, the comparison with the sample, index parity, even length) is a
+# hypothesis with its outcome, one lemma per execution path; the `for index in 0..len` loop of insert_value is
+# summarised by the model's insert_loop on the remaining indices and its BODY is translated separately against one
+# unfolding of insert_loop.  usize::MAX (the link poison of remove_node) is printed as the model's `poison`.
+MED_RS = F + "median.rs"
+MED_IMPL = r"impl<T,\s*const N: usize>\s+Median<T,\s*N>\s+where\s+T:\s*Clone\s*\+\s*PartialOrd"
+MED_IMPL_ACC = r"impl<T,\s*const N: usize>\s+Median<T,\s*N>\s+where\s+T:\s*Clone,?\s*\{"
+MED_FILTER = r"impl<T,\s*const N: usize>\s+Filter<T>\s+for\s+Median<T,\s*N>"
+def nat(name): return ("Nat", name)
+def buf(name): return ("obj", "buf", name)
+def med_self(b="b", c="c", h="h", m="m"): return st(state=st(buffer=buf(b), cursor=nat(c), head=nat(h), median=nat(m)))
+MED_METHODS = {k: (MED_RS, MED_IMPL, ps) for k, ps in {
+    "should_insert": ["value", "current", "index"], "move_head_forward": [], "remove_node": [], "initialize_median": [], "insert_value": ["value"],
+    "insert": ["value", "current"], "shift_median": ["index", "current"], "update_head": ["value"], "adjust_median_for_even_length": [],
+    "increment_cursor": [], "median_unchecked": []}.items()}
+MED_METHODS.update({k: (MED_RS, MED_IMPL_ACC.replace(r"\s*\{", ""), []) for k in ("len", "median", "min", "max")})
+MED_REC = "{| buffer := {self.state.buffer}; cursor := {self.state.cursor}; head := {self.state.head}; median := {self.state.median} |}"
+MED_S = "{| buffer := b; cursor := c; head := h; median := m |}"
+MED_VARS = "(b : list (node T)) (c h m : nat)"
+MED_SCRIPT = ("intros. rewrite ?even_mod2, ?odd_land1 in *. cbn [insert_loop]. unfold Median.filter, move_head_forward, remove_node, should_insert, Median.insert, shift_median, acc_median, acc_min, acc_max. "
+              "cbn [fst snd obind buffer cursor head median insert_loop]. "
+              "repeat (match goal with H : _ = _ |- _ => rewrite H; cbn [fst snd obind buffer cursor head median insert_loop is_some andb orb negb] end). reflexivity.")
+def median_loop_summary(sym, env, e):
+    """for index in 0..buffer_len { .. } of insert_value, summarised by insert_loop over seq 0 len"""
+    from rs2coq import coq_V
+    lo, hi = sym.ev(e[2][1], env), sym.ev(e[2][2], env)
+    if as_nat(lo) != "0" or as_nat(hi) is None: raise Unsupported("loop range is not 0..len")
+    selfv = env.get("self"); state = selfv[1]["state"][1]
+    k = sym.fresh(); nb, nm = "b%d" % k, "med%d" % k
+    sym.dyn_vars += [(nb, "list (node T)"), (nm, "nat")]
+    sym.dyn_hyps.append("insert_loop T (aleb A) (seq 0 %s) %s %s %s %s %s %s = Some (%s, %s)" % (
+        as_nat(hi), as_nat(state["cursor"]), coq_V(env.get("value")), state["buffer"][2], as_nat(state["median"]), as_nat(env.get("current")), coq_V(env.get("has_inserted")), nb, nm))
+    selfv = sym.updated(selfv, ["state", "buffer"], buf(nb)); selfv = sym.updated(selfv, ["state", "median"], nat(nm))
+    env.set_existing("self", selfv); sym.curbuf = nb
+    env.set_existing("current", ("dead",)); env.set_existing("has_inserted", ("dead",))
+    return ("unit",)
+def med_entry(pid, name, fn, lhs, rhs, impl=MED_IMPL, params=None, vars=MED_VARS, **kw):
+    entry(pid, name, cls="Median", file=MED_RS, impl=impl, fn=fn, params=params or {}, methods=MED_METHODS, split=True, curbuf="b",
+          imports="Base.Bits Model.Median", script=MED_SCRIPT, loop_summary=median_loop_summary,
+          cases=[dict(self=med_self(), lhs=lhs, vars=vars)], rhs=rhs, **kw)
+med_entry("C02", "median_move_head_forward", "move_head_forward", "move_head_forward T " + MED_S, "Some " + MED_REC)
+med_entry("C02", "median_remove_node", "remove_node", "remove_node T " + MED_S, "Some " + MED_REC)
+med_entry("C02", "median_should_insert", "should_insert", "should_insert T (aleb A) b x current index", "Some {ret}", params={"value": v("x"), "current": nat("current"), "index": nat("index")},
+          vars="(b : list (node T)) (c h m current index : nat) (x : T)")
+med_entry("C02", "median_insert", "insert", "Median.insert T b c x current", "Some {self.state.buffer}", params={"value": v("x"), "current": nat("current")},
+          vars="(b : list (node T)) (c h m current : nat) (x : T)")
+med_entry("C02", "median_shift_median", "shift_median", "shift_median T b m index current", "Some {self.state.median}", params={"index": nat("index"), "current": nat("current")},
+          vars="(b : list (node T)) (c h m current index : nat)")
+# one iteration of the insertion loop, for both values of has_inserted, against one unfolding of insert_loop
+entry("C02", "median_insert_loop_step", cls="Median", file=MED_RS, impl=MED_IMPL, fn="insert_value", params={"value": v("x")}, methods=MED_METHODS, split=True, curbuf="b",
+      imports="Base.Bits Model.Median", script=MED_SCRIPT, select="for_body", loop_var="index",
+      locals={"current": nat("current"), "index": nat("index"), "buffer_len": nat("(length b)")},
+      cases=[dict(self=med_self(), locals={"has_inserted": B(("btrue",) if ins else ("bfalse",))},
+                  lhs="insert_loop T (aleb A) (index :: rest) c x b m current %s" % ("true" if ins else "false"),
+                  vars="(b : list (node T)) (c h m current index : nat) (rest : list nat) (x : T)") for ins in (True, False)],
+      rhs="insert_loop T (aleb A) rest {self.state.cursor} x {self.state.buffer} {self.state.median} {local.current} {local.has_inserted}")
+# the whole filter: helpers inlined from their own source text, the loop summarised by insert_loop
+med_entry("C02", "median_filter", "filter", "Median.filter (aleb A) " + MED_S + " x", "Some (" + MED_REC + ", {ret})", impl=MED_FILTER, params={"input": v("x")},
+          vars="(b : list (node T)) (c h m : nat) (x : T)")
+# accessors (C17)
+ACC_IMPL = MED_IMPL_ACC.replace(r"\s*\{", "")
+for acc in ("median", "min", "max"):
+    med_entry("C17", "median_acc_" + acc, acc, "acc_%s %s" % (acc, MED_S), "Some {ret}", impl=ACC_IMPL)
+
+# ---- C04 : moving max / min / bounds -----------------------------------------------------------------------
+# The deque of (value, timestamp) candidates is an abstract list; the two `while` loops and the rebasing `for` loop are
+# (i) summarised in the lemma about the whole body by the model's loop functions expire / drop_dominated / rebase and
+# (ii) translated on their own, unrolled once, against one unfolding of those functions.  Every usize `+` / `-` is the
+# checked operation of a debug build (hypothesis cadd / csub = Some _).  `input > value` is `altb A value input`; the
+# model is instantiated with the order  a <= b := negb (b < a)  so that both read the same comparison.
+import rs2coq as _R
+LEBMAX = "(fun a b => negb (altb A b a))"
+LEBMIN = "(fun a b => negb (altb A a b))"
+def dq(view, known, rest): return ("obj", "dq", (view, tuple(known), rest))
+def dq_list(o):
+    from rs2coq import coq_V
+    view, known, rest = o[2]
+    return "(" + " :: ".join([coq_V(k_) for k_ in known] + [rest]) + ")" if known else rest
+def dq_fwd(o): return dq_list(o) if o[2][0] == "fwd" else "(rev %s)" % dq_list(o)
+_R.OBJ_PRINT["dq"] = dq_list
+def dq_expose(sym, o):
+    """make the first element (in the object's view) known, by case split on the shape of the rest"""
+    view, known, rest = o[2]
+    if known: return o, True
+    if rest == "[]": return o, False
+    k = sym.counter + 1; names = ("v%d" % k, "t%d" % k, "r%d" % k)
+    if sym.decide("%s = (%s, %s) :: %s" % ((rest,) + names), "%s = []" % rest):
+        sym.fresh(); sym.dyn_vars += [(names[0], "T"), (names[1], "N"), (names[2], "list (T * N)")]
+        return dq(view, [("tuple", [T(("var", names[0])), ("N", ("nvar", names[1]))])], names[2]), True
+    return dq(view, [], "[]"), False
+def prim_dq_end(which):
+    def f(sym, o, args):
+        if (which == "front") != (o[2][0] == "fwd"): raise Unsupported("%s() on the other end of the deque" % which)
+        o2, some_ = dq_expose(sym, o)
+        return (("opt", o2[2][1][0]) if some_ else ("opt", None)), o2
+    return f
+def prim_dq_pop(which):
+    def f(sym, o, args):
+        if (which == "pop_front") != (o[2][0] == "fwd"): raise Unsupported("%s() on the other end of the deque" % which)
+        o2, some_ = dq_expose(sym, o)
+        if not some_: return ("opt", None), o2
+        return ("opt", o2[2][1][0]), dq(o2[2][0], o2[2][1][1:], o2[2][2])
+    return f
+def prim_dq_push_back(sym, o, args):
+    from rs2coq import coq_V
+    return ("unit",), dq("fwd", [], "(fst (push_back (N.to_nat n) %s %s))" % (dq_fwd(o), coq_V(args[0])))
+DQ = {("dq", "front"): prim_dq_end("front"), ("dq", "back"): prim_dq_end("back"), ("dq", "pop_front"): prim_dq_pop("pop_front"),
+      ("dq", "pop_back"): prim_dq_pop("pop_back"), ("dq", "push_back"): prim_dq_push_back}
+def _has_mcall(node, name):
+    if isinstance(node, tuple):
+        if node and node[0] == "mcall" and node[2] == name: return True
+        return any(_has_mcall(x_, name) for x_ in node)
+    if isinstance(node, list): return any(_has_mcall(x_, name) for x_ in node)
+    return False
+def _taps(env): return env.get("self")[1]["state"][1]["taps"]
+def _set_taps(sym, env, o): env.set_existing("self", sym.updated(env.get("self"), ["state", "taps"], o))
+def bounds_summary(sym, env, which, leb):
+    from rs2coq import coq_V
+    o = _taps(env)
+    if which == "front":
+        l1 = "l%d" % sym.fresh(); sym.dyn_vars.append((l1, "list (T * N)"))
+        sym.dyn_hyps.append("expire T n maxu false %s %s = Some %s" % (coq_V(env.get("current_time")), dq_fwd(o), l1))
+        _set_taps(sym, env, dq("fwd", [], l1))
+    elif o[2][0] == "fwd":
+        _set_taps(sym, env, dq("fwd", [], "(rev (drop_dominated T %s %s (rev %s)))" % (leb, coq_V(env.get("input")), dq_fwd(o))))
+    else:
+        _set_taps(sym, env, dq("rev", [], "(drop_dominated T %s %s %s)" % (leb, coq_V(env.get("input")), dq_list(o))))
+def bounds_while(leb):
+    def h(sym, env, e):
+        from rs2coq import coq_B
+        which = "front" if _has_mcall(e[1], "front") else "back"
+        if sym.case.get("mode", "summary") == "summary":
+            bounds_summary(sym, env, which, leb); return ("unit",)
+        c = sym.ev(e[1], env)
+        if c[0] != "B": raise Unsupported("loop condition is not a boolean")
+        go = True if c[1] == ("btrue",) else False if c[1] == ("bfalse",) else sym.decide("%s = true" % coq_B(c[1]), "%s = false" % coq_B(c[1]))
+        if go:
+            sym.block(e[2], env); bounds_summary(sym, env, which, leb)
+        return ("unit",)
+    return h
+def bounds_for(sym, env, e):
+    """for (_, time) in taps.iter_mut() { *time -= offset }  against rebase"""
+    from rs2coq import coq_V, Env as _Env
+    o = _taps(env); off = coq_V(env.get("offset"))
+    def summary(txt):
+        l1 = "l%d" % sym.fresh(); sym.dyn_vars.append((l1, "list (T * N)"))
+        sym.dyn_hyps.append("rebase T %s %s = Some %s" % (off, txt, l1)); return l1
+    if sym.case.get("mode", "summary") == "summary":
+        _set_taps(sym, env, dq("fwd", [], summary(dq_fwd(o)))); return ("unit",)
+    o2, some_ = dq_expose(sym, o)
+    if not some_: return ("unit",)
+    el = o2[2][1][0]; pat = e[1]
+    if pat[0] != "ptuple" or len(pat[1]) != 2: raise Unsupported("loop pattern is not a pair")
+    inner = _Env(env); b_ = sym.pmatch(pat, el); inner.vars.update(b_)
+    sym.block(e[3], inner)
+    newel = ("tuple", [inner.vars[p_[1]] if p_[0] == "pid" else x_ for p_, x_ in zip(pat[1], el[1])])
+    _set_taps(sym, env, dq("fwd", [newel], summary(o2[2][2]))); return ("unit",)
+BSCRIPT = ("intros. repeat (match goal with Hlt : N.ltb ?a ?m = true, Hc : cadd ?m ?a 1%N = Some _ |- _ => rewrite (cadd_lt m a Hlt) in Hc; injection Hc as <- end). "
+           "unfold bounds_step, max_step, min_step, step. cbn [fst snd obind time taps expire drop_dominated rebase]. "
+           "repeat (match goal with H : _ = _ |- _ => rewrite H; cbn [fst snd obind time taps expire drop_dominated rebase] end). rewrite ?Bool.negb_involutive. "
+           "repeat (match goal with H : _ = _ |- _ => rewrite H; cbn [fst snd obind time taps expire drop_dominated rebase] end). reflexivity.")
+NV = lambda name: ("N", ("nvar", name))
+PAIR = ("tuple", [v("v"), NV("t")])
+def bounds_entries(kind, leb):
+    file_ = F + "bounds/%s.rs" % kind; Ty = kind.capitalize()
+    impl = r"impl<T,\s*const N: usize>\s+Filter<T>\s+for\s+%s<T,\s*N>" % Ty
+    common = dict(file=file_, impl=impl, fn="filter", params={"input": v("x")}, prims=DQ, split=True, while_handler=bounds_while(leb), loop_summary=bounds_for,
+                  imports="Model.Bounds Proofs.Translate", script=BSCRIPT, locals={"N": NV("n")})
+    bself = lambda o, tm="ct": st(state=st(time=NV(tm), taps=o))
+    BV = "(n maxu ct : N) (x : T) "
+    entry("C04", kind + "_expire_step", select=("while", 0), rhs="Some {self.state.taps}",
+          cases=[dict(self=bself(dq("fwd", [], "[]")), mode="unroll1", locals={"current_time": NV("ct")}, lhs="expire T n maxu false ct []", vars=BV),
+                 dict(self=bself(dq("fwd", [PAIR], "r")), mode="unroll1", locals={"current_time": NV("ct")}, lhs="expire T n maxu false ct ((v, t) :: r)", vars=BV + "(v : T) (t : N) (r : list (T * N))")], **common)
+    entry("C04", kind + "_drop_step", select=("while", 1), rhs="{self.state.taps}",
+          cases=[dict(self=bself(dq("rev", [], "[]")), mode="unroll1", locals={"current_time": NV("ct")}, lhs="drop_dominated T %s x []" % leb, vars=BV),
+                 dict(self=bself(dq("rev", [PAIR], "r")), mode="unroll1", locals={"current_time": NV("ct")}, lhs="drop_dominated T %s x ((v, t) :: r)" % leb, vars=BV + "(v : T) (t : N) (r : list (T * N))")], **common)
+    entry("C04", kind + "_rebase_step", select=("for", 0), rhs="Some {self.state.taps}",
+          cases=[dict(self=bself(dq("fwd", [], "[]")), mode="unroll1", locals={"offset": NV("off")}, lhs="rebase T off []", vars=BV + "(off : N)"),
+                 dict(self=bself(dq("fwd", [PAIR], "r")), mode="unroll1", locals={"offset": NV("off")}, lhs="rebase T off ((v, t) :: r)", vars=BV + "(off : N) (v : T) (t : N) (r : list (T * N))")], **common)
+    entry("C04", kind + "_filter", rhs="Some ({| time := {self.state.time}; taps := {self.state.taps} |}, {ret})",
+          cases=[dict(self=bself(dq("fwd", [], "l")), lhs="%s_step %s n maxu false {| time := ct; taps := l |} x" % (kind, "(fun a b => negb (altb A b a))"), vars=BV + "(l : list (T * N))")], **common)
+bounds_entries("max", LEBMAX)
+bounds_entries("min", LEBMIN)
+def prim_bfilter(kind):
+    def f(sym, o, args):
+        from rs2coq import coq_V
+        k = sym.fresh(); s1, y = "%s'" % o[2], "y%d" % k
+        sym.dyn_vars += [(s1, "st T"), (y, "T")]
+        sym.dyn_hyps.append("%s_step (fun a b => negb (altb A b a)) n maxu false %s %s = Some (%s, %s)" % (kind, o[2], coq_V(args[0]), s1, y))
+        return T(("var", y)), ("obj", "b" + kind, s1)
+    return f
+entry("C04", "bounds_filter", file=F + "bounds.rs", impl=r"impl<T,\s*const N: usize>\s+Filter<T>\s+for\s+Bounds<T,\s*N>", fn="filter", params={"input": v("x")},
+      prims={("bmin", "filter"): prim_bfilter("min"), ("bmax", "filter"): prim_bfilter("max")}, imports="Model.Bounds Proofs.Translate",
+      script="intros. unfold bounds_step. cbn [fst snd obind]. repeat (match goal with H : _ = _ |- _ => rewrite H; cbn [fst snd obind] end). reflexivity.",
+      cases=[dict(self=st(state=st(min=("obj", "bmin", "smin"), max=("obj", "bmax", "smax"))), lhs="bounds_step (fun a b => negb (altb A b a)) n maxu false (smin, smax) x",
+                  vars="(n maxu : N) (smin smax : st T) (x : T)")],
+      rhs="Some (({self.state.min}, {self.state.max}), ({ret.0}, {ret.1}))")
+
 # ---- constants compiled into macro invocations ---------------------------------------------------------
 CONSTS = {"C18": [dict(name="hampel_factor", file=F + "hampel.rs", regex=r"impl_hampel_filter!\(\s*(f32|f64)\s*=>\s*([0-9][0-9_]*\.[0-9_]*)\s*\)", expect=2,
                        lemma="From Coq Require Import QArith Qcanon.\nFrom Signalo Require Import Model.Hampel.\nLemma hampel_factor_%(k)s : Q2Qc (%(q)s) = mad_factor.\nProof. apply Qc_is_canon. reflexivity. Qed.\n")]}
 
 
 # ------------------------------------------------------------------------------------------------ generation
-def run_case(ent, case, body_ast, params_txt):
+def run_case(ent, case, body_ast, params_txt, assume=None):
     subs = {}
     for sname in ent.get("subs", []):
         for se in (e for es in ENTRIES.values() for e in es if e["name"] == sname or e.get("cls") == sname):
@@ -426,18 +627,48 @@ def run_case(ent, case, body_ast, params_txt):
         sym.fns[fname] = (parse_body(fbody), fparams)
     sym.world = ent.get("world")
     sym.case = case
+    for mname, (mfile, mimpl, mparams) in (ent.get("methods") or {}).items():      # helper methods of the receiver's own class
+        mbody, _ = find_method(open(mfile).read(), mimpl, mname)
+        sym.subs[(ent["cls"], mname)] = (parse_body(mbody), mparams)
+    sym.loop_summary = ent.get("loop_summary")
+    sym.while_handler = ent.get("while_handler")
+    if isinstance(ent.get("select"), tuple):          # ("while", k) / ("for", k): only the k-th loop statement of that kind
+        kind, kth = ent["select"]
+        found = [st_[1] for st_ in body_ast[1] if st_[0] == "expr" and st_[1][0] == kind] + ([body_ast[2]] if body_ast[2] is not None and body_ast[2][0] == kind else [])
+        def deep(node, acc):
+            if isinstance(node, tuple):
+                if node and node[0] == kind: acc.append(node)
+                for x_ in node: deep(x_, acc)
+            elif isinstance(node, list):
+                for x_ in node: deep(x_, acc)
+            return acc
+        found = deep(body_ast, [])
+        if kth >= len(found): raise Unsupported("the body has only %d `%s` loops" % (len(found), kind))
+        body_ast = ("block", [("expr", found[kth])], None)
+    if assume is not None: sym.assume = list(assume)
+    sym.curbuf = ent.get("curbuf")
+    if ent.get("select") == "for_body":
+        fors = [st_[1] for st_ in body_ast[1] if st_[0] == "expr" and st_[1][0] == "for"] + ([body_ast[2]] if body_ast[2] is not None and body_ast[2][0] == "for" else [])
+        if len(fors) != 1: raise Unsupported("expected exactly one for loop in the body, found %d" % len(fors))
+        if fors[0][1] != ("pid", ent["loop_var"]): raise Unsupported("the loop variable is not `%s`" % ent["loop_var"])
+        body_ast = fors[0][3]
     env = Env()
     selfv = case["self"]
     if ent.get("cls") and selfv[0] == "struct" and "__sub" not in selfv[1]:
         d = dict(selfv[1]); d["__sub"] = ("mark", ent["cls"]); selfv = ("struct", d)
     env.vars["self"] = selfv
-    for name, val in ent["params"].items():
+    for name, val in list(ent["params"].items()) + list((ent.get("locals") or {}).items()) + list((case.get("locals") or {}).items()):
         env.vars[name] = (case.get("params") or {}).get(name, val)
     from rs2coq import Return
+    from rs2coq import Panics
     try:
         ret = sym.block(body_ast, env)
     except Return as r:
         ret = r.value
+    except Panics as pe:
+        pe.sym = sym
+        raise
+    sym.final_env = env
     return sym, env.get("self") if "self" in env.vars else ("unit",), ret
 
 
@@ -458,11 +689,12 @@ def opt_path(vv, path):
 def fill2(template, selfv, ret, sym=None):
     from rs2coq import coq_V
     if sym is not None and sym.world is not None: template = template.replace("{world}", sym.world)
+    if sym is not None and getattr(sym, "final_env", None) is not None:
+        template = re.sub(r"\{local\.([A-Za-z0-9_]+)\}", lambda m: coq_V(sym.final_env.vars[m.group(1)]), template)
     def rep(m):
         parts = m.group(1).split(".")
         base = ret if parts[0] == "ret" else selfv
         val = opt_path(base, parts[1:])
-        if val[0] == "obj": return str(val[2][0] if isinstance(val[2], tuple) else val[2])
         return coq_V(val)
     return re.sub(r"\{((?:ret|self)(?:\.[A-Za-z0-9_?]+)*)\}", rep, template)
 
@@ -478,7 +710,7 @@ def lemma_text(ent, idx, case, sym, selfv, ret):
     rhs = fill2(case.get("rhs", ent["rhs"]), selfv, ret, sym)
     dyn = "".join(" (%s : %s)" % nv for nv in sym.dyn_vars)
     binder = "%s%s%s, " % (ent.get("header", "forall (T : Type) (A : arith T)"), binders(case["vars"]), dyn)
-    name = "%s_case%d" % (ent["name"], idx)
+    name = "%s_case%s" % (ent["name"], idx)
     head = case["lhs"].split()[0].lstrip("@")
     from rs2coq import coq_V
     pushed = getattr(sym, "pushed", [])
@@ -519,10 +751,30 @@ def translate_entry(ent):
             "From Coq Require Import NArith List.\nImport ListNotations.\nFrom Signalo Require Import Base.Arith Base.Opt Base.Machine Model.Generic %s.\n" % ent.get("imports", "")]
     count = 0
     for i, case in enumerate(ent["cases"]):
-        sym, selfv, ret = run_case(ent, case, ast, params_txt)
-        t, k = lemma_text(ent, i, case, sym, selfv, ret)
-        text.append(t)
-        count += k
+        if not ent.get("split"):
+            sym, selfv, ret = run_case(ent, case, ast, params_txt)
+            t, k = lemma_text(ent, i, case, sym, selfv, ret)
+            text.append(t); count += k
+            continue
+        # path-splitting: one lemma per execution path; the branch outcomes are hypotheses of the lemma
+        from rs2coq import NeedAssumption, Panics
+        stack = [[]]; npaths = 0
+        while stack:
+            vec = stack.pop()
+            try:
+                sym, selfv, ret = run_case(ent, case, ast, params_txt, assume=vec)
+            except NeedAssumption:
+                stack.append(vec + [False]); stack.append(vec + [True])
+                if len(vec) > 12: raise Unsupported("more than 12 nested symbolic tests on one path")
+                continue
+            except Panics as pe:
+                sym = pe.sym
+                t, k = lemma_text(ent, "%d_p%s_panics" % (i, "".join("t" if b else "f" for b in vec) or "0"), dict(case, rhs="None"), sym, ("unit",), ("unit",))
+                text.append(t); count += k; npaths += 1
+                continue
+            t, k = lemma_text(ent, "%d_p%s" % (i, "".join("t" if b else "f" for b in vec) or "0"), case, sym, selfv, ret)
+            text.append(t); count += k; npaths += 1
+            if npaths > 200: raise Unsupported("more than 200 paths")
     return "".join(text), count
 
 
